@@ -89,6 +89,7 @@ type hwRow struct {
 	Exec             *hwExec
 	ExecNote         string
 	line             int // line in the .s file
+	group            int // index of the register in reg.Families order (= row of Gen.regs)
 }
 
 func hwOpsFor(kind, size int) []string {
@@ -808,30 +809,28 @@ func init() {
 			name       string
 			kind, size int
 		}
-		seen := map[key]bool{}
-		nviews := 0
+		nviews, ngroups := 0, 0
+		identRe := regexp.MustCompile(`^[A-Za-z][A-Za-z0-9]*$`)
 		for _, f := range reg.Families {
-			if f.Kind == reg.KindPseudo {
-				continue
-			}
 			for _, r := range f.Registers() {
+				g := ngroups
+				ngroups++
+				if f.Kind == reg.KindPseudo {
+					continue // not a hardware register: empty group
+				}
 				nviews++
 				k := key{r.Asm(), int(r.Kind()), int(r.Size())}
-				if seen[k] {
-					continue
-				}
-				seen[k] = true
 				ops := hwOpsFor(k.kind, k.size)
-				if !regexp.MustCompile(`^[A-Za-z][A-Za-z0-9]*$`).MatchString(k.name) {
-					rows = append(rows, &hwRow{Name: k.name, CtxKind: k.kind, CtxSize: k.size, Op: "-", Why: "not an assembler identifier"})
+				if !identRe.MatchString(k.name) {
+					rows = append(rows, &hwRow{Name: k.name, CtxKind: k.kind, CtxSize: k.size, Op: "-", Why: "not an assembler identifier", group: g})
 					continue
 				}
 				if ops == nil {
-					rows = append(rows, &hwRow{Name: k.name, CtxKind: k.kind, CtxSize: k.size, Op: "-", Why: "no move instruction for this kind and size"})
+					rows = append(rows, &hwRow{Name: k.name, CtxKind: k.kind, CtxSize: k.size, Op: "-", Why: "no move instruction for this kind and size", group: g})
 					continue
 				}
 				for _, op := range ops {
-					rows = append(rows, &hwRow{Name: k.name, CtxKind: k.kind, CtxSize: k.size, Op: op, OK: true})
+					rows = append(rows, &hwRow{Name: k.name, CtxKind: k.kind, CtxSize: k.size, Op: op, OK: true, group: g})
 				}
 			}
 		}
@@ -875,17 +874,17 @@ func init() {
 			}
 		}
 		// drop rejected alternative encodings when another one of the same name exists
-		okFor := map[key]bool{}
+		okFor := map[int]bool{}
 		for _, r := range rows {
 			if r.OK {
-				okFor[key{r.Name, r.CtxKind, r.CtxSize}] = true
+				okFor[r.group] = true
 			}
 		}
 		var kept []*hwRow
-		var dropped []string
+		dropped := map[string][]string{}
 		for _, r := range rows {
-			if !r.OK && okFor[key{r.Name, r.CtxKind, r.CtxSize}] {
-				dropped = append(dropped, r.Op+" "+r.Name)
+			if !r.OK && okFor[r.group] {
+				dropped[r.Op] = append(dropped[r.Op], r.Name)
 				continue
 			}
 			kept = append(kept, r)
@@ -897,25 +896,37 @@ func init() {
 		var b strings.Builder
 		b.WriteString("-- MEASURED by avoh gen-lean RegHW: go tool asm + decoders (raw fields, binutils objdump, x86asm) and execution on the host CPU. Do not edit.\n")
 		b.WriteString("import AvoVerif.Model.RegHW\nnamespace Avo.Oracle\nopen Avo.Reg\n")
+		b.WriteString("-- One group per row of reg.Families order (the order of Gen.regs); pseudo registers have the empty group.\n")
 		b.WriteString("-- ⟨name, ctxKind, ctxSize, op, enc, ok, cls, num, width, hi, exec⟩ ; exec = some ⟨cls, num, data, zeroed⟩\n")
-		b.WriteString("def regHW : List HWRow := [\n")
+		b.WriteString("def regHW : List (List HWRow) := [\n")
 		nexec, nfail := 0, 0
 		var failed []string
-		for i, r := range rows {
-			if i > 0 {
+		byGroup := make([][]*hwRow, ngroups)
+		for _, r := range rows {
+			byGroup[r.group] = append(byGroup[r.group], r)
+		}
+		for g, grp := range byGroup {
+			if g > 0 {
 				b.WriteString(",\n")
 			}
-			ex := "none"
-			if r.Exec != nil {
-				ex = fmt.Sprintf("some ⟨%d, %d, %s, %s⟩", r.Exec.Cls, r.Exec.Num, r.Exec.Data, r.Exec.Zeroed)
-				nexec++
+			b.WriteString("  [")
+			for i, r := range grp {
+				if i > 0 {
+					b.WriteString(",\n   ")
+				}
+				ex := "none"
+				if r.Exec != nil {
+					ex = fmt.Sprintf("some ⟨%d, %d, %s, %s⟩", r.Exec.Cls, r.Exec.Num, r.Exec.Data, r.Exec.Zeroed)
+					nexec++
+				}
+				if !r.OK {
+					nfail++
+					failed = append(failed, fmt.Sprintf("%s %s: %s", r.Op, r.Name, r.Why))
+				}
+				fmt.Fprintf(&b, "⟨%s, %d, %d, %s, %s, %s, %d, %d, %d, %s, %s⟩", leanStr(r.Name), r.CtxKind, r.CtxSize, leanStr(r.Op), leanStr(r.Enc),
+					leanBool(r.OK), r.Dec.Cls, r.Dec.Num, r.Dec.Width, leanBool(r.Dec.Hi), ex)
 			}
-			if !r.OK {
-				nfail++
-				failed = append(failed, fmt.Sprintf("%s %s: %s", r.Op, r.Name, r.Why))
-			}
-			fmt.Fprintf(&b, "  ⟨%s, %d, %d, %s, %s, %s, %d, %d, %d, %s, %s⟩", leanStr(r.Name), r.CtxKind, r.CtxSize, leanStr(r.Op), leanStr(r.Enc),
-				leanBool(r.OK), r.Dec.Cls, r.Dec.Num, r.Dec.Width, leanBool(r.Dec.Hi), ex)
+			b.WriteString("]")
 		}
 		b.WriteString("]\nend Avo.Oracle\n")
 		decs := []string{"raw prefix/ModRM field extraction"}
@@ -930,7 +941,12 @@ func init() {
 		summary["oracle_rows"] = len(rows)
 		summary["rows_with_execution"] = nexec
 		summary["rows_failed"] = failed
-		summary["encodings_rejected_by_assembler_and_dropped"] = dropped
+		var dl []string
+		for op, ns := range dropped {
+			dl = append(dl, fmt.Sprintf("%s: %d names (%s … %s)", op, len(ns), ns[0], ns[len(ns)-1]))
+		}
+		sort.Strings(dl)
+		summary["encodings_rejected_by_assembler_and_dropped"] = dl
 		var enconly []string
 		for _, r := range rows {
 			if r.OK && r.Exec == nil {
